@@ -575,6 +575,8 @@ func c02Tables(c *vlib.Ctx, ck *Checker[c02Case]) {
 			ht = append(ht, "x-"+string(rune(b)))
 		}
 	}
+	// (names the Fetch standard safelists depending on their value: browsers do list them in ACRH when the value is not safe)
+	ht = append(ht, "accept", "accept-language", "content-language", "content-type", "range", "Accept", "CONTENT-TYPE")
 	var hIntents []ref.Intent
 	for _, h := range ht {
 		hIntents = append(hIntents, ref.Intent{Origin: org, Method: "GET", Headers: []string{strings.ToLower(h)}})
